@@ -39,7 +39,7 @@ def cert_acceptable(cert, c):
 def gen(tier):
     scs = []
     par = [(r, a, h) for r in (True, False) for a in (False, True) for h in (False, True)]
-    behaviours = [(True, "ok"), (False, "ok"), (True, "454"), (True, "502"), (True, "inject"), (True, "garbage"), (True, "close")]
+    behaviours = [(True, "ok"), (False, "ok"), (True, "454"), (True, "502"), (True, "inject"), (True, "garbage"), (True, "close"), (True, "silent")]
     capsets = [(["AUTH PLAIN"], ["AUTH LOGIN"]), (["AUTH PLAIN LOGIN", "8BITMIME"], ["AUTH PLAIN LOGIN", "8BITMIME"]), ([], ["AUTH PLAIN"]), (["AUTH LOGIN"], [])]
     for fl in ("sync", "tokio"):
         for mode in ("none", "opportunistic", "required", "wrapper"):
@@ -150,6 +150,8 @@ def script_for(sc, clear, tls):
 
 
 def peer_of(sc):
+    if sc["server"]["starttls_reply"] == "silent":
+        return "silent"
     if sc["server"]["starttls_reply"] in ("garbage", "close") and not sc["server"]["implicit_tls"]:
         return "none"
     return sc["server"]["cert"]
@@ -189,7 +191,11 @@ def oracle(sc, r):
     def auth_possible(inside):
         caps = " ".join(sv["caps_after" if inside else "caps_before"]).upper()
         return (not c["creds"]) or ("AUTH" in caps and ("PLAIN" in caps or "LOGIN" in caps))
-    upgrade_possible = (sv["starttls_offered"] and sv["starttls_reply"] == "ok") or sv["implicit_tls"]
+    upgrade_possible = (sv["starttls_offered"] and sv["starttls_reply"] == "ok") or (sv["implicit_tls"] and sv["starttls_reply"] != "silent")
+    if sv["starttls_reply"] == "silent" and (mode == "wrapper" or (mode in ("required", "opportunistic") and sv["starttls_offered"])):
+        # a peer that says nothing during the handshake: the send fails, and says that it timed out
+        if not re.match(r"^err,[a-z]+,[^,]*,[^,]*,1", res):
+            bad.append("%s TLS: the peer was silent during the handshake; the send returned %s (not a timeout)" % (mode, res))
     acceptable = cert_acceptable(sv["cert"], c)
     if sv.get("ehlo_name_after", "srv").strip() == "" and mode != "none":
         # the EHLO inside TLS cannot be interpreted: the connection must fail there - nothing learned in clear may steer the session
